@@ -7,6 +7,7 @@ V = os.path.dirname(os.path.dirname(os.path.abspath(__file__)))
 TECH = "TLA+ specification checked with TLC; conformance by replaying TLC-enumerated scenarios into the library and validating the recorded traces against the specification with TLC (trace spec)"
 
 CHECKS = {
+ "C19": ("4 C19", "RoundTrip is an identity step of the specification (the thinnest use of the model, stated as such in DESIGN.md): the specification supplies the enumeration of the tree space (families dir / ow / sym / cont / res: every resolved kind, direction, oneway combination, nesting) and the requirement; the trace spec compares the field-by-field projection of the tree re-read from RON with the projection before, at parse stage and after validation, and Rust's == as logged."),
  "C15": ("4 C15", "AidlSymbols.Walk / FilterPaths / FindPath / WalkTypesPaths state the visiting order (array element before the array, any depth) and the filter / find semantics; WalkCoversTree (every node exactly once) is evaluated on every judged tree; TLC enumerates family 'sym'; the harness identifies every delivered reference by pointer identity and the trace spec compares sequences for the three filter levels and the predicates k-th / class / name."),
  "C16": ("4 C16", "AidlSymbols.LookupPath (first symbol in traversal order whose reported name range contains the position, inclusive at both ends) is compared with find_symbol_at_line_col at EVERY (line, column) of every rendered document of family 'sym' and of random projects, for the three filter levels."),
  "C17": ("4 C17", "AidlSymbols.QNameOf / PlainNameOf; family 'sym' covers every item kind x package depth 1-3 with a second file referencing the item in several positions; get_name / get_qualified_name of every walked symbol and Aidl::get_key are compared by the trace spec."),
